@@ -84,6 +84,20 @@ CHECKS = {
                         "memory orderings weaker than acquire/release on the cell are not explored",
                         "temp-file staging uses real files (no scheduling points inside file I/O)"],
     },
+    "C13": {
+        "level": "exploration",
+        "rule": "exhaustive: every violation class (out-of-order starts, overlap, start>end, beyond chromosome, unknown chromosome, chromosome order, non-contiguous chromosome, 8-10 malformed-line shapes, empty input) injected at every position (chromosome first/middle/last x item first/middle/last) of a valid 3x3 input x {bigWig, bigBed} x {iterator, serial text, parallel file} x {single, two-pass} x runtimes; plus valid degenerate inputs (zero-length only, single item, a source yielding no values). Each write runs under catch_unwind and a wall-clock watchdog. Oracle: invalid -> Err value (not Ok, not panic, not hang); valid -> returns without panic or hang. non-trivial = every case (each is a distinct injection)",
+        "require": ["invalid_refused", "valid_returned_ok"],
+        "assumptions": E1_ASSUME + ["hang verdicts are wall-clock caps (15 s where a case takes < 5 ms)"],
+    },
+    "C14": {
+        "level": "fault_enumeration",
+        "technique": "exhaustive crash-point and fault-position enumeration over the recorded destination operation log of the real writer",
+        "rule": "for each history (file type x chromosomes x pass x zooms x compression [x slots, buffering]; small and > 8 KiB per chromosome): (a) every prefix of the recorded write/seek/flush log is materialised and opened with the typed and generic readers - each accepted image must serve the complete chromosome table, records and zoom levels or refuse the query; (b) for every operation index and each fault mode (fail once / fail from then on / short write) the write call must not return Ok(()) (short write: Ok only with byte-identical output); (c) the destination after each refused input must be rejected or fully served. non-trivial = every history",
+        "require": ["crash_points", "images_rejected", "images_accepted", "fault_runs", "fault_runs_returned_err", "refused_input_runs"],
+        "assumptions": E1_ASSUME + ["torn writes inside one destination operation are outside the property's quantifier",
+                                    "a panic under an injected I/O error counts as 'did not report success'"],
+    },
 }
 
 HOOKS = {
